@@ -1,5 +1,6 @@
 import NfcVerif.Model.Retry
-open NfcVerif NfcVerif.Retry
+import NfcVerif.Model.RetryObj
+open NfcVerif NfcVerif.Retry NfcVerif.RetryObj
 
 def parseAtt (c : Char) : Option Att :=
   match c with
@@ -101,6 +102,33 @@ def sessLines (cfg : Cfg) (read : Prog) : List SOp → Bool → World → List S
         ++ showApplied (w'.applied.drop w.applied.length) ++ " # " ++ showFlags w')
       :: sessLines cfg read os r.2.1 w'
 
+/-- operation of a history on a FeliCa Lite / Lite-S tag object:
+`ndef` `changed` `write` `rdsvc` `wrsvc` `auth/<macOk>/<extOk>` `plain/<clears>/<fam|op|v|phases>` -/
+def parseOOp (cfg : Cfg) (tlv lites : Bool) (s : String) : Option OOp :=
+  match s.splitOn "/" with
+  | ["ndef"] => some .ndef
+  | ["changed"] => some .changed
+  | ["write"] => some .write
+  | ["protect"] => some .protect
+  | ["rdsvc"] => some (.svc false)
+  | ["wrsvc"] => some (.svc true)
+  | ["auth", m, e] => some (.auth lites (m = "1") (e = "1"))
+  | ["plain", c, p] => (parseProg cfg tlv 0 p).map fun P => .plain P (c = "1")
+  | _ => none
+
+def showObj (o : Obj) : String :=
+  let b := fun (x : Bool) => if x then "1" else "0"
+  "o" ++ b o.sk ++ b o.auth ++ b o.rdMac ++ b o.wrMac ++ b o.cached ++ b o.polled
+
+def histLines (cfg : Cfg) (v : Variant) (L : Cmds) : List OOp → Obj → World → List String
+  | [], _, w => ["end # " ++ showFlags w]
+  | op :: ops, o, w =>
+    let r := ostep cfg v L op o w
+    let w' := r.2.2
+    (showOutcome r.1 ++ " # " ++ showLog (w'.log.drop w.log.length) ++ " # "
+        ++ showApplied (w'.applied.drop w.applied.length) ++ " # " ++ showFlags w' ++ " # " ++ showObj r.2.1)
+      :: histLines cfg v L ops r.2.1 w'
+
 def handle (line : String) : String :=
   match line.splitOn " " with
   | ["run", cfg, fam, op, v, nret, script, senses, phases] =>
@@ -122,6 +150,13 @@ def handle (line : String) : String :=
       | some read, some ops => " || ".intercalate (sessLines cfg read ops false { script := sc, senses := se })
       | _, _ => "no-program"
     | _, _, _, _ => "bad-op"
+  | "hist" :: cfg :: variant :: lites :: script :: phases :: ops =>
+    match parseCfg cfg, parseScript script, parsePhases phases with
+    | some (cfg, tlv), some sc, some L =>
+      match ops.mapM (parseOOp cfg tlv (lites = "1")) with
+      | some ops => " || ".intercalate (histLines cfg ⟨variant = "1"⟩ L ops {} { script := sc })
+      | none => "no-program"
+    | _, _, _ => "bad-op"
   | _ => "bad-op"
 
 def main : IO Unit := runDriver handle
